@@ -294,6 +294,53 @@ def free_run(provider, cfg, seed, start=0, watchdog=90.0):
     return dict(cfg=dict(cfg), ev=ev, hang=hang, meta_ok=meta_ok, maxsize=H["meta"]["maxsize"], problems=list(sched.problems))
 
 
+def inductive_check(res, kq):
+    """Unbounded safety: Apalache discharges an inductive invariant over the SAME actions (FrameStream.tla up to its
+    ==PROPERTIES== marker + spec/FrameStreamInd.tla.in), for arbitrary n, cap, b, fail; plus non-vacuity probes."""
+    import os
+    import shutil
+    import subprocess
+    import tempfile
+    from concurrent.futures import ThreadPoolExecutor
+    from harness.tlc import SPEC_DIR
+
+    src = open(os.path.join(SPEC_DIR, "FrameStream.tla")).read()
+    head = src[:src.index("\\* ==PROPERTIES==")]
+    head = head.replace("MODULE FrameStream ", "MODULE FrameStreamInd ").replace(
+        "EXTENDS Naturals, Sequences, SequencesExt, FiniteSets, TLC", "EXTENDS Integers, Sequences, FiniteSets, Apalache\nKQ == %d" % kq)
+    if "Apalache" not in head:
+        raise TLCError("could not derive the Apalache module from FrameStream.tla")
+    tmp = tempfile.mkdtemp(prefix="verif_apa_")
+    try:
+        with open(os.path.join(tmp, "FrameStreamInd.tla"), "w") as f:
+            f.write(head + open(os.path.join(SPEC_DIR, "FrameStreamInd.tla.in")).read())
+        obligations = [("Init => IndInv", "IInit0", "IndInv", 0, "NoError"), ("IndInv /\\ Next => IndInv'", "IndInit", "IndInv", 1, "NoError"),
+                       ("IndInv => Safety", "IndInit", "Safety", 0, "NoError"),
+                       ("probe: terminal states admitted", "IndInit", "ProbeNeverEnds", 0, "Error"),
+                       ("probe: partial batches admitted", "IndInit", "ProbeNoPartialBatch", 0, "Error"),
+                       ("probe: faults admitted", "IndInit", "ProbeNoFault", 0, "Error"),
+                       ("probe: full queue admitted", "IndInit", "ProbeQueueNeverFull", 0, "Error")]
+
+        def one(k_ob):
+            k, (name, init, inv, length, want) = k_ob
+            cmd = ["apalache-mc", "check", "--next=FSNext", "--init=" + init, "--inv=" + inv, "--length=%d" % length,
+                   "--out-dir=" + os.path.join(tmp, "out%d" % k), "FrameStreamInd.tla"]
+            p = subprocess.run(cmd, cwd=tmp, stdout=subprocess.PIPE, stderr=subprocess.STDOUT, text=True, timeout=1800)
+            got = "NoError" if "The outcome is: NoError" in p.stdout else ("Error" if "The outcome is: Error" in p.stdout else "?")
+            return name, want, got, p.stdout[-600:]
+
+        with ThreadPoolExecutor(max_workers=4) as ex:
+            outs = list(ex.map(one, list(enumerate(obligations))))
+        bad = [(n, w, g, o) for n, w, g, o in outs if w != g]
+        if bad:
+            raise TLCError("Apalache obligation '%s': expected %s, got %s\n%s" % bad[0])
+        res.coverage["inductive_invariant"] = dict(tool="apalache-mc 0.58", obligations=[o[0] for o in outs], discharged=len(outs),
+                                                   seq_bound_in_inductive_step=kq,
+                                                   note="safety clauses of C13 for arbitrary n, cap, b, fail (sequence lengths per state bounded by Gen(%d))" % kq)
+    finally:
+        shutil.rmtree(tmp, ignore_errors=True)
+
+
 def run(tier, seed):
     from loguru import logger
     from harness.graph import dump_graph
@@ -313,6 +360,7 @@ def run(tier, seed):
         res.add_mc("MC_FrameStream n<=6 cap<=4 b<=4", r3)
         if r3.violation:
             raise TLCError("FrameStream design check failed: %s" % (r3.violation,))
+    inductive_check(res, 3 if tier == "quick" else 6)
     # ---- spec -> code: forced replay of every maximal path ------------------------------------
     gr, g = dump_graph("MC_FrameStream", MC_CFG % (4, 3, 3, "Spec", ""))
     memo, jobs = {}, []
